@@ -13,7 +13,8 @@ REQUIRED_THEOREMS = [
     'C18_initial_structure', 'C18_initial_entry', 'C18_initial_structure_legacy_partial',
     'C18_initial_structure_counterexample', 'C18_initial_structure_filter', 'C18_table_pairs',
     'C18_readback', 'C18_roundtrip', 'C18_roundtrip_example', 'C18_readback_history_independent',
-    'C18_readback_cache_counterexample', 'C18_initial_reproducible', 'C18_seed_zero_counterexample']
+    'C18_readback_cache_counterexample', 'C18_initial_reproducible', 'C18_seed_zero_counterexample',
+    'C18_param_map_once', 'C18_param_map_distinct', 'C18_param_map_exchange_counterexample']
 RULE = ('random posteriors: individual (LogPosterior), hierarchical (1-3 population sub-models out of '
         'Gaussian / log-normal centred and non-centred, truncated Gaussian, pooled, heterogeneous, covariate-'
         'wrapped Gaussian and pooled, reduced), 1-4 individuals, 1-2 dims per sub-model, and population-filter '
@@ -109,7 +110,7 @@ def build_hier(chi, c):
         ll = chi.LogLikelihood(make_toy(c, n_dim - 1), chi.GaussianErrorModel(),
                                list(r.uniform(1.0, 3.0, 3)), [0.5, 1.0, 2.0])
         if c['custom_ids']:
-            ll.set_id(['pat-%d' % (7 * k + 3), 'B%d' % k, '%d' % (40 - k)][c['toy_seed'] % 3])
+            ll.set_id(['pat-%d' % (7 * k + 3), 'B%d' % k, '%d' % (40 - k), '%d' % ((k + 1) % n_ids)][c['toy_seed'] % 4])
         lls.append(ll)
     ncov = pm.n_covariates()
     cov = np.round(r.uniform(0.5, 1.5, (n_ids, ncov)), 3) if ncov else None
@@ -343,6 +344,24 @@ def hier_initial_structure(ctx, chi, lp, pm, cov, flags, x0, seed, n, inp, n_ids
 # ----------------------------------------------------------------------------------------
 # read-back
 # ----------------------------------------------------------------------------------------
+def exchange_names(rng, model_names, pmap, p_exchange=0.6):
+    """a posterior stored under another naming convention: the dataset variables read by some model
+    parameters are renamed to OTHER model parameters' names (an exchange A<->B or a longer cycle), and the
+    parameter map says so.  Returns (rename dict for the dataset, new parameter map with its entries in random
+    order) — mapped-to names are then keys of the map as well."""
+    n = len(model_names)
+    if n < 2 or rng.random() > p_exchange:
+        return {}, dict(pmap)
+    targets = [pmap.get(m, m) for m in model_names]
+    S = [int(j) for j in rng.choice(n, size=int(rng.integers(2, min(n, 4) + 1)), replace=False)]
+    pi = {S[i]: S[(i + 1) % len(S)] for i in range(len(S))}
+    ren = {targets[i]: model_names[pi[i]] for i in S}
+    new = {m: t for m, t in pmap.items() if model_names.index(m) not in S}
+    new.update({model_names[i]: model_names[pi[i]] for i in S})
+    keys = list(new)
+    return ren, {k_: new[k_] for k_ in [keys[int(j)] for j in rng.permutation(len(keys))]}
+
+
 def readback_case(ctx, chi, c, fmt, lls, inp, rng):
     """feed the dataset to a PosteriorPredictiveModel and to compute_pointwise_loglikelihood;
     ONE PosteriorPredictiveModel object is asked for a sequence of individuals (repetitions and the default
@@ -386,6 +405,15 @@ def readback_case(ctx, chi, c, fmt, lls, inp, rng):
     pmap = param_map(r_first)
     if columns(pmap, uniq[r_first]) is None:
         return      # a model parameter without a uniquely named dataset variable (covariate-wrapped pooled)
+    # exchanged / cyclically shifted names between dataset and model (not with a per-individual name map)
+    base_names, base_top = list(names), list(top)
+    ren, xmap = ({}, dict(pmap)) if has_het else exchange_names(rng, model_names, pmap)
+    if ren:
+        ds = ds.rename(ren)
+        names = [ren.get(v, v) for v in base_names]
+        top = [ren.get(v, v) for v in base_top]
+        pmap = xmap
+        inp = dict(inp, renamed=ren, param_map=[[a_, b_] for a_, b_ in pmap.items()])
     # the sequence of requests put to one object (a heterogeneous dimension needs a per-individual name map,
     # so there the object can only serve its own individual — asked twice)
     if has_het:
@@ -437,7 +465,7 @@ def readback_case(ctx, chi, c, fmt, lls, inp, rng):
     # --- pointwise log-likelihood: the function is called for two individuals in a row on the same dataset
     for r_ind in ([r_first] if has_het else sorted({r_first, (r_first + 1) % len(uniq)})):
         individual = uniq[r_ind]
-        pm_ = param_map(r_ind)
+        pm_ = param_map(r_ind) if has_het else pmap
         cols = columns(pm_, individual)
         if cols is None:
             continue
@@ -477,11 +505,19 @@ def individual_dataset_case(ctx, chi, rng, k):
     if fmt is None:
         return
     ds, chains, names = fmt[0], fmt[1], fmt[2]
+    # the dataset may use the model's names in exchanged / shifted roles (column k still belongs to parameter k)
+    ren, xmap = exchange_names(rng, list(names), {})
+    if ren:
+        ds = ds.rename(ren)
+        inp = dict(inp, renamed=ren, param_map=[[a_, b_] for a_, b_ in xmap.items()])
+    else:
+        xmap = {}
     n_chains, n_draws, _ = chains.shape
     pred = chi.PredictiveModel(toy.ToyModel(1, n_mech, tseed), [chi.GaussianErrorModel()])
     seed = pick_seed(rng)
     try:
-        df = chi.PosteriorPredictiveModel(pred, ds).sample([0.5, 2.0], n_samples=2, seed=seed)
+        df = chi.PosteriorPredictiveModel(pred, ds, param_map=xmap or None).sample([0.5, 2.0], n_samples=2,
+                                                                               seed=seed)
         got = list(np.asarray(df['Value'], float))
     except Exception as e:  # noqa
         got = core.errkind(e)
@@ -494,7 +530,7 @@ def individual_dataset_case(ctx, chi, rng, k):
     ctx.spec('C18.readback/posterior_predictive', not isinstance(got, str) and core.close(got, want, 1e-12), inp,
              {'chi': got, 'expected': want})
     try:
-        pw = chi.compute_pointwise_loglikelihood(ll, ds)
+        pw = chi.compute_pointwise_loglikelihood(ll, ds, param_map=xmap or None)
         gotp = np.asarray(pw.values, float)
     except Exception as e:  # noqa
         gotp = core.errkind(e)
